@@ -180,6 +180,9 @@ class IMAPConnection:
                 lit_plus = self._literal_plus.search(buf)
             else:
                 lit_plus = None
+            if lit_plus and len(lit_plus.group(1)) > 20:
+                # absurd length, return the line and let parsing reject it
+                lit_plus = None
             if lit_plus:
                 literal_length = int(lit_plus.group(1))
                 buf += await self.reader.readexactly(literal_length)
